@@ -51,6 +51,11 @@ LEVEL_TEXT += (
     "the Newton iteration starts strictly inside every reference cell; "
     "no DG mesh class may have a boundary element while the facet map "
     "indexes by vertex numbers (open finding).")
+LEVEL_TEXT += (
+    " Added in the third round (review of the fix commits, DESIGN.md "
+    "9.6): "
+    "every call site of mapping.normals passes points derived from the "
+    "facet, not a constant reference point.")
 LEVEL_NOTE = (
     "Trusted: numpy einsum/tile/empty semantics. Not decided: Newton "
     "iteration of the isoparametric inverse, curved second-order meshes, "
